@@ -7,7 +7,7 @@ from pbt.props import _e1
 
 ID = 'C03'
 LEVEL = 'exploration'
-RULE = ('E1 histories with >=2 partitions, server/instance/allocation traits, '
+RULE = ('70% E1 histories (pure scheduler API) and 30% E2 histories (Master + ZkBackend + masterapi on the fake ZooKeeper, incl. reload/restore/restart paths of loader.py); E1 histories with >=2 partitions, server/instance/allocation traits, '
         'leases around the reboot time, renewals, instances moved to '
         'allocations of another partition, frozen/down servers under '
         'pressure. Non-trivial = a history in which an instance was placed '
@@ -19,7 +19,7 @@ ASSUMPTIONS = [
     'the partition of an instance is the partition of the allocation it was '
     'last assigned to (Cell.add_app), as Loader.load_app does',
 ]
-TRUSTED = ['pbt/cellsim.py', 'pbt/oracles.py']
+TRUSTED = ['pbt/cellsim.py', 'pbt/mastersim.py', 'pbt/fakezk.py', 'pbt/oracles.py']
 BUDGET = {'quick': 6000, 'thorough': 160000}
 
 PROFILE = {
@@ -30,8 +30,11 @@ PROFILE = {
 }
 
 
+E2_PROFILE = {'max_parts': 3, 'weights': {'app': 12, 'allocs': 5, 'repart': 3, 'reboot': 3, 'adv': 3, 'state': 2, 'down': 2, 'tickreboots': 2}, 'force': ['allocs']}
+
+
 def strategy(tier):
-    return gen.cell_case(PROFILE)
+    return gen.tagged(PROFILE, E2_PROFILE, e2_share=3)
 
 
 def watch(sim, info, flags):
